@@ -187,7 +187,25 @@ def c17_shapes(tier):
         return {'geo': [(2, 3), (6, 5), (0, 3), (4, 4), (1, 1), (3, 2)], 'thr': [(1, 3), (4, 5), (6, 5)]}
     return {'geo': [(a, b) for a in range(7) for b in range(6)], 'thr': [(1, 3), (2, 3), (4, 5), (6, 5), (1, 2), (3, 4)]}
 
+def c14_shapes(tier):
+    # (threads, pairs per thread, preemption bound, pre-existing resource, exit mask, inbound, clock step)
+    if tier == 'quick':
+        return [(2, 1, 1, 0, 1, 1, 0), (2, 1, 1, 1, 3, 0, 0), (2, 1, 1, 0, 0, 1, 0), (2, 1, 1, 0, 3, 1, 1), (2, 2, 1, 0, 2, 0, 0)]
+    return [(2, 1, 2, 0, 1, 1, 0), (2, 1, 2, 1, 3, 0, 0), (2, 1, 2, 0, 3, 1, 1), (3, 1, 1, 0, 5, 1, 0), (2, 2, 1, 0, 2, 1, 0), (3, 1, 1, 1, 7, 0, 1), (2, 2, 1, 1, 3, 0, 1)]
+
 PROPS = {
+    'C14': {
+        'level': 'model_checking',
+        'bounds': '2 (quick) / 2-3 threads, each 1-2 build/exit pairs (exit per thread on/off) on one resource, fresh or pre-existing, inbound or outbound; schedules: every interleaving of the threads at their visible '
+                  'operations (lock acquire/release, atomic operations, spawn/join, yield, the library sync points) with at most 1 (quick) / 2 (thorough, 2 threads) preemptions; clock fixed inside a bucket, or stepped into the next bucket by thread 0 after its first entry; '
+                  'chain of the real prepare and resource-statistic slots',
+        'assumptions': ['sequentially consistent memory', 'initialisers of lazy statics and Once run without preemption (std blocks concurrent callers)',
+                        'a schedule-dependent counterexample is confirmed natively by a stress replay with delay injection at the library sync points (up to 150 runs per profile); one that never reproduces is reported as inconclusive, not as a violation'],
+        'scenarios': [
+            {'name': 'c14_shared_node', 'threads': True, 'shapes': {'quick': c14_shapes('quick'), 'thorough': c14_shapes('thorough')},
+             'witnesses': ['joined'], 'selftest': {'quick': 4, 'thorough': 8}},
+        ],
+    },
     'C17': {
         'level': 'model_checking',
         'bounds': '(a) every (sample_count_total, interval_ms_total) from {0,1,2,3,4,6,20} x {0,1,500,1000,1500,10000} as shapes (quick: six of them), the default metric (sample_count, interval_ms) symbolic over the same grids: '
